@@ -537,13 +537,15 @@ def loadLine (st : DState) (line : String) : DState :=
 def semHandle (st : DState) (ws : List String) : Option String :=
   match ws with
   | ["wskeys"] => some s!"{st.wsprogs.size}"
-  | ["progeq", specKey, rustKey] =>
-    -- C01 / C03 / C04 (code side): is the program translated from the generated Rust reader the per-enumerator normal form of the
-    -- program translated from the wowm definition?  (Model/SemNorm.lean `readerMatches`, Thm/C01b.lean)
+  | ["progeq", kind, specKey, rustKey] =>
+    -- C01 / C03 / C04 (code side): is the program translated from the generated Rust writer (`w`) / reader (`r`) the per-enumerator
+    -- normal form of the program translated from the wowm definition (for readers: with the roles erased)?
+    -- (Model/SemNorm.lean `writerMatches` / `readerMatchesE`, Thm/C01b-d.lean)
     match st.corpus.get? specKey, st.corpus.get? rustKey with
     | some (_, s), some (_, r) =>
-      if Sem.readerMatches s r then
-        some s!"same wf={if Sem.wfMs r then 1 else 0} prim={if (Sem.firstPrim r).isSome then 1 else 0}"
+      let ok := if kind == "w" then Sem.writerMatches s r else Sem.readerMatchesE s r
+      if ok then
+        some s!"same wf={if Sem.wfMs s then 1 else 0} prim={if (Sem.firstPrim r).isSome then 1 else 0}"
       else some "differ"
     | none, _ => some "nokey-spec"
     | _, none => some "nokey-rust"
